@@ -155,4 +155,5 @@ func c11(c *Ctx) {
 	c.readerErrorPath("R11.5")
 	c.taggedResponsesNotDropped("R11.6")
 	c.recursionDepthPaired("R11.7")
+	c.boundedAccumulation("R11.8")
 }
